@@ -42,10 +42,12 @@ QUERIES = [
     ("tos", 'dup "%s"'),                                       # needs a value: raises on the empty stack
     ("pick", "if ?(dup 2 ?eq) then (%s) else (dup dup)" % RAISE),  # raises for the combination whose TOS is 2
     ("some", "?(dup 1 ?eq)"),                                  # yields only for the combination whose TOS is 1
+    ("dwpos", "?(type == T_DWARF) pos"),                                          # the position of the file among those that could be opened
+    ("dwfirst", "?(type == T_DWARF) ?0 entry ?root name"),
     ("compile", ")("),
     ("unknown", "nosuchword"),
 ]
-FILESETS = [[], [V1], [V1, V2], [BAD], [V1, BAD, V2], [NONELF], [BAD, NONELF], [V2, V2, V1]]
+FILESETS = [[], [V1], [V1, V2], [BAD], [V1, BAD, V2], [NONELF], [BAD, NONELF], [V2, V2, V1], [BAD, V1, V2], [NONELF, V2, BAD, V1]]
 # (flag, text, the Zwerg expression whose yields are the values, or None = does not compile)
 ARGSETS = [
     [],
@@ -60,6 +62,8 @@ ARGSETS = [
     [("--a", "[1, 2]")],
     [("--a", "7"), ("--a", "(1, 2)")],                         # single-valued first, multi-valued later
     [("-a", "x"), ("--a", "(1, 2, 3)"), ("-a", "z")],
+    [("--a", "(DW_TAG_const_type, DW_AT_name)")],              # named constants and other radices: the header has their brief form
+    [("--a", "(0x10, 0o7, 0b11, 5)"), ("--a", "(STT_FUNC, true, [DW_FORM_data1, 0x1f])")],
     [("--a", DIES)],                                           # values that are DIEs (header rendered into a string first)
     [("--a", "(1, 2)"), ("--a", DIES)],
 ]
@@ -75,7 +79,7 @@ def arg_expr(flag, text):
 def render(v, brief=False):
     t = v["t"]
     if t == "c":
-        return v["show"]
+        return v["brief"] if brief and "brief" in v else v["show"]      # headers and sequence elements: the brief form (no family / radix prefix)
     if t == "s":
         b = bytes.fromhex(v["v"])
         if not brief:
@@ -112,7 +116,7 @@ class Interner:
             full, hdr = DIE_RENDER[v["off"]]
         else:
             full, hdr = render(v), render(v, True)
-        k = (full, hdr)
+        k = (full, hdr, v.get("idx"))        # (the same file named twice is two values: they differ in position)
         if k not in self.ids:
             i = len(self.ids) + 1
             self.ids[k] = i
@@ -204,11 +208,13 @@ def run(ctx):
         for combo in itertools.product(*lists):
             key = (q, fs, a, combo)
             c = list(combo)
+            dwpos = c[0] if FILESETS[fs] else 0                # the CLI numbers the files it could open
             dw = files[c.pop(0)] if FILESETS[fs] else None
             inq = " ".join("[%s] elem ?(pos == %d)" % (arg_expr(f, t), k) for (f, t), k in zip(ARGSETS[a], c))
             kw = {}
             if dw:
                 kw["dw"] = dw
+                kw["dwpos"] = dwpos
             if inq:
                 kw["inq"] = inq
             lib_keys.append(key)
@@ -233,8 +239,8 @@ def run(ctx):
 
     # ---- model expectations
     intern = Interner()
-    def dwval(f):
-        return {"t": "dwarf", "show": '<Dwarf "%s">' % f}
+    def dwval(f, idx=None):
+        return {"t": "dwarf", "show": '<Dwarf "%s">' % f, "idx": idx}
     invs = [(o, q, fs, a) for o in OPTSETS for (q, fs, a) in configs]
     if quick:
         # every (query, files, arguments) configuration under two random option sets
@@ -244,7 +250,8 @@ def run(ctx):
         vals = [argvals[arg_expr(f, t)] for f, t in ARGSETS[a]]
         parse_ok = compiles[q] and all(v is not None for v in vals)
         files = [f for f in FILESETS[fs] if fopen[f]]
-        ftxt = ",".join("%d:%s" % (i + 1, intern.get(dwval(f)) if fopen[f] else "-") for i, f in enumerate(FILESETS[fs]))
+        fidx = [i for i, f in enumerate(FILESETS[fs]) if fopen[f]]
+        ftxt = ",".join("%d:%s" % (i + 1, intern.get(dwval(f, i)) if fopen[f] else "-") for i, f in enumerate(FILESETS[fs]))
         atxt = ";".join("a" + ",".join(str(intern.get(v)) for v in vs) for vs in vals) if parse_ok else ""
         ex = []
         if parse_ok and not (FILESETS[fs] and not files):
@@ -252,7 +259,7 @@ def run(ctx):
             for combo in itertools.product(*lists):
                 r = lib[(q, fs, a, combo)]
                 c = list(combo)
-                cur = ([intern.get(dwval(files[c.pop(0)]))] if FILESETS[fs] else []) + [intern.get(vs[k]) for vs, k in zip(vals, c)]
+                cur = ([intern.get(dwval(files[c[0]], fidx[c.pop(0)]))] if FILESETS[fs] else []) + [intern.get(vs[k]) for vs, k in zip(vals, c)]
                 recs = []
                 for s in r.results:
                     recs.append("r" + ".".join(str(intern.get(v)) for v in s))
